@@ -1,5 +1,6 @@
 SPECIFICATION LSpec
 CONSTANTS
+    Focus = "general"
     Cfgs <- LoopCfgs
     Ctors <- McCtors
     Layouts <- McLayouts
